@@ -7,8 +7,8 @@
 From Coq Require Import List Bool String ZArith.
 From KV Require Import Eqb AL Str.
 From KV.Gen Require Import Tables.
-From KV.Model Require Import MMergeKeep.
-From KV.Proofs Require Import PMergeKeep.
+From KV.Model Require Import MMergeKeep MMergeKeepPts.
+From KV.Proofs Require Import PMergeKeep PMergeKeepPts.
 Import ListNotations.
 Local Open Scope string_scope.
 Local Open Scope list_scope.
@@ -30,7 +30,7 @@ Definition part_name (p : part) : string :=
 Definition modelled_parts : list part :=
   [PSensors; PRigs] ++ map part_of_t [TTraj] ++ map part_of_r [RCam; RDepth; RLidar] ++ map part_of_n [NWifi; NBt]
   ++ map part_of_t [TGnss; TAccel; TGyro; TMag] ++ map part_of_i [IKp; IDesc; IGf] ++ [PMatches]
-  ++ [PObs; PPoints] (* the last two: property C11 *).
+  ++ [PObs; PPoints] (* the last two: Model/MMergeKeepPts.v, section 9 below *).
 Definition rec_class (r : rpart) : string :=
   match r with RCam => "RecordsCamera" | RDepth => "RecordsDepth" | RLidar => "RecordsLidar" end.
 
@@ -357,3 +357,73 @@ Lemma C09_features_alias_legacy_refuted :
 Proof.
   exists [], SSkip, false, [exA; exB]. eexists. eexists. split; [vm_compute; reflexivity|]. vm_compute. discriminate.
 Qed.
+
+(* ------------------------------------------------------------------ 9. 3-D points and observations (the last block of
+   merge_keep_ids; Model/MMergeKeepPts.v).  [merge_keep_x] is the whole function: [merge_keep], then [pdriver]. *)
+Local Open Scope Z_scope.
+
+(* every theorem above applies unchanged to the whole function, and its last block equals a closed form *)
+Theorem C09_whole_merge_refines : forall skip st ho ins pins d f pc po,
+  merge_keep_x skip st ho ins pins = XOk d f pc po ->
+  merge_keep skip st ho ins = Ok (d, f)
+  /\ spec_driver (skipped skip PPoints) (skipped skip PObs) pins = POk (pc, po).
+Proof. exact x_refines. Qed.
+Print Assumptions C09_whole_merge_refines.
+
+(* the closed form, for every list of inputs: points3d in the skip list -> no points and no observations; otherwise the
+   merged points are ALL the rows of the inputs in input order (absent when there is none), with the column count of the
+   inputs' non-empty clouds, which must agree (ValueError otherwise); empty clouds, of whatever column count and at
+   whatever position, take no part in that test.  Observations (unless skipped): those of the inputs that have points,
+   point numbers shifted by the number of points of the earlier inputs; absent when there is none. *)
+Theorem C09_points_and_observations_closed_form : forall sp so ins,
+  pdriver sp so ins =
+  if sp then POk (None, None) else
+  match (match nonempty_clouds ins with
+         | [] => POk None
+         | c0 :: cs => if forallb (fun c => width c =? width c0) cs
+                       then POk (Some (mkCloud (width c0) (all_rows ins))) else PErrShape
+         end) with
+  | POk pc => POk (pc, if so then None else some_if_obs (spec_obs 0 ins))
+  | PErrShape => PErrShape
+  end.
+Proof. exact pdriver_spec. Qed.
+Print Assumptions C09_points_and_observations_closed_form.
+
+(* a points3d part that is present but empty contributes nothing and imposes nothing, wherever it stands *)
+Theorem C09_empty_points_contribute_nothing : forall sp so w l1 l2,
+  pdriver sp so (l1 ++ empty_input w :: l2) = pdriver sp so (l1 ++ l2).
+Proof. exact empty_contributes_nothing. Qed.
+Print Assumptions C09_empty_points_contribute_nothing.
+
+(* the points merge succeeds exactly when the non-empty clouds agree on their number of columns *)
+Theorem C09_points_merge_succeeds_iff : forall so ins,
+  (exists r, pdriver false so ins = POk r) <-> exists w, forall c, In c (nonempty_clouds ins) -> width c = w.
+Proof. exact ok_iff. Qed.
+Print Assumptions C09_points_merge_succeeds_iff.
+
+(* the only new failure of the whole function: the rest succeeded, points3d is not skipped, column counts disagree *)
+Theorem C09_shape_error_iff : forall skip st ho ins pins,
+  merge_keep_x skip st ho ins pins = XErr XShape <->
+  (exists d f, merge_keep skip st ho ins = Ok (d, f)) /\ skipped skip PPoints = false
+  /\ ~ exists w, forall c, In c (nonempty_clouds pins) -> width c = w.
+Proof. exact x_shape_iff. Qed.
+Print Assumptions C09_shape_error_iff.
+
+Example C09_example_points :
+  let A := (Some (mkCloud 3 ["a0"; "a1"]), Some [(1, "sift", "a.jpg", 7)]) : pinput in
+  let E := empty_input 6 in
+  let N := (None, Some [(0, "sift", "n.jpg", 1)]) : pinput in
+  let B := (Some (mkCloud 3 ["b0"]), Some [(0, "sift", "b.jpg", 2); (0, "sift", "b.jpg", 2)]) : pinput in
+  pdriver false false [A; E; N; B]
+  = POk (Some (mkCloud 3 ["a0"; "a1"; "b0"]), Some [(1, "sift", "a.jpg", 7); (2, "sift", "b.jpg", 2); (2, "sift", "b.jpg", 2)])
+  /\ pdriver false true [A; E; N; B] = POk (Some (mkCloud 3 ["a0"; "a1"; "b0"]), None)
+  /\ pdriver true false [A; E; N; B] = POk (None, None)
+  /\ pdriver false false [E; empty_input 3] = POk (None, None)
+  /\ pdriver false false [A; (Some (mkCloud 6 ["c0"]), None)] = PErrShape.
+Proof. vm_compute. repeat split. Qed.
+
+(* without the shortcut for an empty cloud in _append_points3d the property fails *)
+Lemma C09_append_without_empty_shortcut_refuted :
+  pdriver_strict false false [(Some (mkCloud 3 ["a"%string]), None); empty_input 6] = PErrShape
+  /\ pdriver false false [(Some (mkCloud 3 ["a"%string]), None); empty_input 6] = POk (Some (mkCloud 3 ["a"%string]), None).
+Proof. exact strict_refuted. Qed.
